@@ -56,6 +56,7 @@ FEATS = {
     "import_dotted": "import os.path as p0\nc0 = p0.basename('a/b')\n",
     "import_dotted_noalias": "import os.path\nc0 = os.path.basename('a/b')\n",
     "from_import": "from math import floor as f0\nc0 = f0(2.5)\n",
+    "from_import_twice_guarded": "if not 1:\n    from math import ceil as e0\nfrom math import floor as f0\nfor z0 in []:\n    from os.path import join as j0\nfrom os.path import basename as b0\nc0 = (f0(2.5), b0('a/b'))\n",
     "destructure": "a0, (b0, *r0) = 1, (2, 3, 4)\nc0 = [a0, b0, r0]\n",
     "destructure2": "(a0, b0), d0, [e0, (f0, *g0)] = (1, 2), 3, [4, (5, 6)]\nc0 = [a0, b0, d0, e0, f0, g0]\n",
     "chained_destr": "(a0, b0) = d0 = [1, 2]\n[e0, *f0] = g0 = h0 = (3, 4, 5)\nc0 = (a0, b0, d0, e0, f0, g0, h0 is g0)\n",
@@ -80,7 +81,7 @@ FEATURE_BUILTINS = {
     "class": ["type", "setattr"], "class_isc": ["type", "setattr", "classmethod"], "class_super": ["type", "setattr"],
     "class_deco": ["type", "setattr"], "class_meta": ["type", "setattr"],
     "import": ["__import__"], "import_dotted": ["__import__"], "import_dotted_noalias": ["__import__"],
-    "from_import": ["__import__", "globals", "locals"],
+    "from_import": ["__import__", "globals", "locals"], "from_import_twice_guarded": ["__import__", "globals", "locals"],
     "destructure": ["tuple", "list"], "destructure2": ["tuple", "list"], "chained_destr": ["tuple", "list"], "aug_sub": ["hasattr", "slice"], "aug_attr": ["hasattr", "setattr", "type"],
     "aug_name": ["hasattr"], "slice_assign": ["slice"], "attr_assign": ["setattr", "type"], "chained": [],
     "global_store": ["globals"], "nonlocal": ["hasattr"], "if": [], "func_return": ["type", "setattr", "iter", "next"],
@@ -114,6 +115,8 @@ ROLES = {
     "funcglobaldecl": "g1 = 1\ndef {N}(p1=2):\n    global g1\n    g1 = g1 + p1\n    h1 = 7\n    def in1():\n        global h1\n        h1 = 'glob'\n        return g1, h1\n    return in1(), h1\n{F}print({N}(), g1, h1, c0)\n",
     "classnamedbody": "class {N}:\n    a1 = 1\n    b1 = a1 + 1\n    def m1(self, d1=a1):\n        return d1 + self.b1\n    l1 = [a1 for e1 in range(1)]\n    a1 = a1 + 10\n{F}print({N}().m1(), {N}.l1, {N}.a1, c0)\n",
     "funcinfunc": "def R0(z1):\n    def {N}(y1):\n        w1 = y1 + z1\n        def in1():\n            nonlocal w1\n            w1 += 1\n            return w1\n        return in1() + y1\n    return {N}(1)\n{F}print(R0(2), c0)\n",
+    # a lambda whose DEFAULT is a lambda with a parameter spelled like a captured variable that the outer lambda reads
+    "lambdadefaultlambda": "def R0():\n    {N} = 1\n    def cap0():\n        nonlocal {N}\n        {N} += 1\n    cap0()\n    gq9 = lambda fq9=lambda {N}: {N} * 10, *aq9, kq9=lambda *{N}: len({N}): (fq9({N}), kq9({N}, {N}), {N})\n{FI}    return gq9(), {N}, c0\nprint(R0())\n",
     "funcwithcomp": "def {N}(a1, b1=2):\n    return [e1 + a1 for e1 in range(b1)]\n{F}print({N}(1), c0)\n",
 }
 _OL = re.compile(r"__ol_[A-Za-z0-9_]+")
@@ -138,7 +141,7 @@ def cell_excluded(ident, role, feat, switches):
                      "globalbelow_import": ["globals", "__import__"], "lambdawalruscomp": ["hasattr"],
                      "compsamename": ["type", "setattr"], "funccaptured": ["hasattr"],
                      "funcglobaldecl": ["globals", "hasattr"], "classnamedbody": ["type", "setattr"],
-                     "funcinfunc": ["hasattr"]}.get(role, []))
+                     "funcinfunc": ["hasattr"], "lambdadefaultlambda": ["hasattr"]}.get(role, []))
         if role == "classattr":
             return None   # a class attribute does not shadow a builtin for the generated code
         if ident in used:
